@@ -55,6 +55,20 @@ scenario('C13', 'interfaces', ['torchtt._division.compute_phi_fwd_A', 'torchtt._
          quick=[dict(which='divide', d=d, k=k) for d in (1, 2, 3) for k in range(d)], replay=None, max_paths=50)(_interfaces)
 
 
+def _local_system(ob, d, guess, direct):
+    """call-site contract inside the real sweep of the AMEn division (same statement as C12 `local_system.first_step`, the operator
+    being diag(a)): at the first local solve of amen_divide(a, b) the matrix handed to torch.linalg.solve is
+         B[(l,m,L),(r,n,R)] = [m == n] * SUM_{s,S} Phis[k][l,s,r] a_k[s,m,S] Phis[k+1][L,S,R]
+    and the right-hand side nrmsc * SUM Phis_b[k][b,r] b_k[b,m,B] Phis_b[k+1][B,R], over the current interfaces and the cores of the
+    ARGUMENTS; iterative branch: the operator object is built from exactly Phis[k], Phis[k+1], a.cores[k], [rx_k, N_k, rx_{k+1}]"""
+    from . import c12 as _c12
+    _c12.local_system_body(ob, d, guess, direct, 'divide')
+
+
+scenario('C13', 'local_system.first_step', ['torchtt._division.amen_divide'],
+         quick=[dict(d=2, guess=g, direct=True) for g in (False, True)] + [dict(d=2, guess=False, direct=False)], replay=None, max_paths=400)(_local_system)
+
+
 def _divide_hook(calls):
     """contract use of amen_divide(a, b, ...) = cores of the TT q with a * q = b (accuracy: bounded stand-in): record the operands"""
     def hook(ex, f, args, kwargs):
